@@ -73,7 +73,7 @@ var (
 	qnWSKind   = appdef.NewQName(appdef.SysPackage, "TestWSKind")
 	testApp    = istructs.AppQName_untill_airs_bp
 	partID     = istructs.PartitionID(1)
-	refFields  = []string{"R1", "R2"}
+	refFields  = []string{"R1", "R2", "P"} // two reference fields and one plain RecordID field per row type
 	workspaces = []istructs.WSID{1, 2}
 )
 
@@ -129,8 +129,12 @@ func (r *rig) boot() error {
 	wsb.AddObject(istructs.QNameRaw).AddField(processors.Field_RawObject_Body, appdef.DataKind_string, true, constraints.MaxLen(appdef.MaxFieldLength))
 
 	addRefs := func(f appdef.IFieldsBuilder) {
-		for _, n := range refFields {
-			f.AddRefField(n, false)
+		for i, n := range refFields {
+			if i < 2 {
+				f.AddRefField(n, false)
+			} else {
+				f.AddField(n, appdef.DataKind_RecordID, false)
+			}
 		}
 	}
 	sub := wsb.AddCRecord(kindQName[kSub])
